@@ -245,6 +245,10 @@ func cmdCheck(args []string) int {
 				continue
 			}
 			v := cj.viol[0]
+			if cj.cfg.NoReplay {
+				canaryOK++ // schedule/stub dependent: detection by the solver is what is checked
+				continue
+			}
 			rid := fmt.Sprintf("canary-%d-%d", len(batch[gr]), ci)
 			batch[gr] = append(batch[gr], replayItem{ID: rid, Entry: cj.entry, Witness: nativeWitness(cj.cfg.Params, v.Nondets, v.Model, true)})
 			pending[rid] = pend{kind: "canary", j: cj}
